@@ -209,6 +209,11 @@ def build_kinds():
           tlv(3, hdr(2) + nd + tlv(265, b'\x18\x0a\x01\x01')), tlv(3, hdr(3) + nd_ospf + tlv(264, b'\x01') + tlv(265, b'\x20\x0a\x01\x01\x01')),
           tlv(4, hdr(2) + nd + tlv(265, b'\x40' + rc.ip6('2001:db8::')[:8])), tlv(6, hdr(2) + nd + tlv(518, rc.ip6('2001:db8::99'))),
           tlv(1, hdr(2) + nd + tlv(999, b'\x01\x02\x03')), tlv(77, b'\x01\x02\x03\x04')]
+    # the same descriptor octets under every Protocol-ID (how a router-id is read depends on the protocol of ITS NLRI)
+    for proto in (1, 3, 4, 5, 6, 7):
+        nl += [tlv(1, hdr(proto) + nd), tlv(2, hdr(proto) + nd + rn + tlv(259, rc.ip4('10.0.0.1')))]
+    for proto in (2, 4, 6, 7):
+        nl += [tlv(1, hdr(proto) + nd_ospf)]
     K['bgpls-nlris'] = (lambda d: BGPLS.parse(d), nl, 'list')
     descs = [nd, rn, tlv(258, struct.pack('!II', 1, 2)), tlv(259, rc.ip4('10.0.0.1')), tlv(260, rc.ip4('10.0.0.2')),
              tlv(261, rc.ip6('2001:db8::1')), tlv(262, rc.ip6('2001:db8::2')), tlv(263, struct.pack('!HH', 2, 3)), tlv(264, b'\x02'),
